@@ -101,7 +101,14 @@ class GatewayModel:
             # (valid) frame is not a version - eg a child presentation whose child id was corrupted
             # to 255 - the statement does not say what the version becomes: the oracle adopts what the
             # gateway holds afterwards (ADOPT is resolved by the caller), the line must still be handled
-            rec["version"] = payload if tables.payload_rule(self.version, 0, sub) == "version" else ADOPT
+            if tables.payload_rule(self.version, 0, sub) == "version":
+                rec["version"] = payload
+            elif not any(ch in "0123456789" for ch in str(payload)):
+                # nothing in it that could be read as a number: unusable as a version, and the statement names the
+                # safe fallback for unusable ones
+                rec["version"] = "1.4"
+            else:
+                rec["version"] = ADOPT
             rec["reboot"] = False
             exp.cb = "must"
             return
